@@ -266,6 +266,7 @@ const char* event_name(int k) {
 }
 
 bool owns(const std::string& prop, const std::string& cls) {
+    if (cls == "unexpected-exception") return prop != "C15";
     if (prop == "C01") return cls == "overlap" || cls == "tulz-assert";
     if (prop == "C02") return cls == "lost-wakeup" || cls == "idle-probe-park";
     if (prop == "C03") return cls == "fifo-order";
@@ -327,8 +328,12 @@ void execute(const Json& program, const sim::Config& cfg, const std::string& pro
     sim::set_deadlock_classifier([&](const std::vector<sim::ThreadInfo>& ti) { return classify_deadlock(program, ti); });
     bool batch = program.gets("kind", "random") == "batch";
     sim::run(cfg, [&] {
-        if (batch) run_batch(program);
+        try {
+            if (batch) run_batch(program);
         else run_random(program);
+        } catch (const std::exception& e) {  // valid use of the API must not throw: an escaping exception is an outcome to report, not a harness error
+            sim::violation("unexpected-exception", std::string("exception escaped from tulz under valid use: ") + e.what());
+        }
     });
     analyse(prop);
     g_extra[batch ? "runs_batch_scenario" : "runs_random_program"]++;
